@@ -391,11 +391,19 @@ func c48Globals(r *core.Report, p *core.Prog) {
 			n++
 			okParse := false
 			var parseKeyInfo ssa.Value
-			for _, c := range findCalls(up, pkgStringMap+".StringToInterface") {
-				if c.Call.Args[0] == mu.Value && domBefore(c, mu) && core.ErrLeadsToFailure(c) {
+			// the parse: in update itself or in a per-key guard helper whose failure fails update
+			for _, l := range LiftCalls(up, core.NameIs(pkgStringMap+".StringToInterface"), 1) {
+				if l.Arg(0) == mu.Value && domBefore(l.Site, mu) && l.ErrFails() {
 					okParse = true
-					parseKeyInfo = c.Call.Args[1]
+					parseKeyInfo = l.Call.Call.Args[1]
 				}
+			}
+			// keyIs: the value (possibly a helper's, bound to the call's arguments) is the stored key
+			keyIs := func(v ssa.Value, bind map[*ssa.Parameter]ssa.Value) bool {
+				if bind != nil {
+					v = core.BindValue(v, bind)
+				}
+				return v == mu.Key
 			}
 			r.Check(okParse, "C48.stored-is-parsed", "GlobalSettings.update:store-value", p.Pos(mu.Pos()), "Fields[key] receives the same value StringToInterface accepted (a parsed copy and a raw store differ for padded input)")
 			// found && Mutable for the same key
@@ -410,17 +418,21 @@ func c48Globals(r *core.Report, p *core.Prog) {
 					}
 					break
 				}
+				v, bind := core.Unbind(v)
+				if bind != nil {
+					v, taken = core.NormCond(v, taken)
+				}
 				if !taken {
 					continue
 				}
 				switch x := v.(type) {
 				case *ssa.Extract: // found of `info, found := table[key]`
-					if lk, ok := x.Tuple.(*ssa.Lookup); ok && x.Index == 1 && lk.CommaOk && lk.Index == mu.Key && strings.HasSuffix(describe(lk.X), "GlobalSettingInfo") {
+					if lk, ok := x.Tuple.(*ssa.Lookup); ok && x.Index == 1 && lk.CommaOk && keyIs(lk.Index, bind) && strings.HasSuffix(describe(lk.X), "GlobalSettingInfo") {
 						okFound = true
 						infoOfKey = lk
 					}
 				default:
-					if lk, nm := c48InfoField(v); lk != nil && nm == "Mutable" && lk.Index == mu.Key {
+					if lk, nm := c48InfoField(v); lk != nil && nm == "Mutable" && keyIs(lk.Index, bind) {
 						okMut = true
 					}
 				}
